@@ -64,7 +64,43 @@ Example c03_nonvacuous :
   select 1 [7; 8; 9] [0; 0; 32] = None.
 Proof. vm_compute. repeat split; reflexivity. Qed.
 
+Lemma remove_first_key_not_in k l : NoDup l -> ~ In k (remove_first_key k l).
+Proof.
+  induction l as [|h t IH]; cbn; intros Hn; [tauto|]. inversion Hn; subst.
+  destruct (h =? k) eqn:E.
+  - apply Z.eqb_eq in E. subst h. assumption.
+  - apply Z.eqb_neq in E. cbn. intros [H|H]; [congruence|]. now apply IH.
+Qed.
+
+Lemma remove_first_key_sub k l x : In x (remove_first_key k l) -> In x l.
+Proof.
+  induction l as [|h t IH]; cbn; [tauto|]. destruct (h =? k); [tauto|]. cbn. intros [H|H]; [tauto|]. right. now apply IH.
+Qed.
+
+Lemma remove_first_key_nodup k l : NoDup l -> NoDup (remove_first_key k l).
+Proof.
+  induction l as [|h t IH]; cbn; intros Hn; [constructor|]. inversion Hn; subst.
+  destruct (h =? k); [assumption|]. constructor; [|now apply IH]. intros Hin. apply remove_first_key_sub in Hin. contradiction.
+Qed.
+
+Lemma select_in : forall socks i revs j k a, select i socks revs = Some (j, k, a) -> In k socks.
+Proof.
+  induction socks as [|h t IH]; intros i revs j k a H; cbn in H; [discriminate|].
+  destruct (classify (nthZ revs 0)).
+  - inversion H; subst. now left.
+  - right. eapply IH. exact H.
+Qed.
+
+(* exactly one disconnect: DriverDisconnect unregisters the socket before it calls the handler; from then on no readiness
+   vector whatsoever makes the driver dispatch anything to that socket again *)
+Theorem disconnected_socket_is_never_dispatched_again : forall k socks,
+  NoDup socks -> forall i revs j a, select i (remove_first_key k socks) revs <> Some (j, k, a).
+Proof.
+  intros k socks Hn i revs j a H. apply select_in in H. exact (remove_first_key_not_in k socks Hn H).
+Qed.
+
 Print Assumptions one_socket_per_step.
+Print Assumptions disconnected_socket_is_never_dispatched_again.
 Print Assumptions socket_task_first_ready.
 Print Assumptions socket_task_priority.
 Print Assumptions unregister_removes_both.
